@@ -29,13 +29,21 @@ def mul_route(route, p, q):
         return np.asarray(Q(p).mult_L() @ q, dtype=float)
     if route == "mult_R":
         return np.asarray(Q(q).mult_R() @ p, dtype=float)
+    if route == "q_prod[int-left]":
+        # an integer-valued left operand is handed over as an integer array (the free function does not normalise)
+        a = np.abs(p[np.abs(p) > 1e-9])
+        k = p / np.min(a)
+        if np.max(np.abs(k - np.rint(k))) < 1e-12 and np.max(np.abs(k)) <= 64:
+            pi = np.rint(k).astype(np.int64)
+            return np.asarray(ori.q_prod(pi, q.copy()), dtype=float) / np.linalg.norm(pi)
+        return np.asarray(ori.q_prod(p.copy(), q.copy()), dtype=float)
     if route == "rotate_by":
         # QuaternionArray.rotate_by(p) returns p * row for every row
         return np.asarray(QuaternionArray(np.array([q, q])).rotate_by(p.copy()), dtype=float)[1]
     raise KeyError(route)
 
 
-MUL_ROUTES = ["product", "mul", "matmul", "q_prod", "mult_L", "mult_R", "rotate_by"]
+MUL_ROUTES = ["product", "mul", "matmul", "q_prod", "q_prod[int-left]", "mult_L", "mult_R", "rotate_by"]
 
 
 def conj_route(route, q):
@@ -55,7 +63,19 @@ def conj_route(route, q):
         return np.asarray(ori.q_conj(np.array([other, other, q])), dtype=float)[2]
     if route == "Quaternion[S].copy.conjugate":
         return np.roll(np.asarray(QS(q).copy().conjugate, dtype=float), 1)
+    if route == "Quaternion[rewritten].conjugate":
+        return np.asarray(rewritten(q).conjugate, dtype=float)
     raise KeyError(route)
+
+
+def rewritten(q):
+    """a live object that held ANOTHER quaternion (and was already asked for its matrix / a rotation) and is then overwritten
+    in place through its array interface: every reader must see the new value"""
+    o = Q([0.5, -0.5, 0.5, 0.5])
+    o.to_DCM()
+    o.rotate(np.array([1.0, 2.0, 3.0]))
+    o[:] = np.array(q, dtype=float)
+    return o
 
 
 def QS(q):
@@ -63,7 +83,7 @@ def QS(q):
     return Quaternion(np.roll(np.array(q, dtype=float), -1), order="S")
 
 
-CONJ_ROUTES = ["conjugate", "conj", "q_conj", "q_conj[batch]", "array_conjugate", "inverse", "Quaternion[S].copy.conjugate"]
+CONJ_ROUTES = ["conjugate", "conj", "q_conj", "q_conj[batch]", "array_conjugate", "inverse", "Quaternion[S].copy.conjugate", "Quaternion[rewritten].conjugate"]
 
 
 def dcm_route(route, q):
@@ -94,12 +114,21 @@ def dcm_route(route, q):
         return np.asarray(QS(q).copy().to_DCM(), dtype=float)
     if route == "Quaternion[S].view.to_DCM":
         return np.asarray(QS(q).view().to_DCM(), dtype=float)
+    if route == "Quaternion[rewritten].to_DCM":
+        return np.asarray(rewritten(q).to_DCM(), dtype=float)
+    if route == "DCM(q=)[int-list]":
+        # integer-valued (non-normalised) quaternions are handed over as integers; others as they are
+        k = np.array(q, dtype=float) / np.min(np.abs(np.array(q, dtype=float))[np.abs(np.array(q, dtype=float)) > 1e-9])
+        if np.max(np.abs(k - np.rint(k))) < 1e-12 and np.max(np.abs(k)) <= 64:
+            return np.asarray(DCM(q=[int(c) for c in np.rint(k)]), dtype=float)
+        return np.asarray(DCM(q=list(q)), dtype=float)
     raise KeyError(route)
 
 
 DCM_ROUTES = ["Quaternion.to_DCM", "QuaternionArray.to_DCM", "DCM(q=)", "DCM.from_quaternion",
               "DCM.from_quaternion[batch]", "q2R.v1", "q2R.v2", "q2R.v1[batch]", "q2R.v2[batch]",
-              "Quaternion[S].to_DCM", "neg(Quaternion[S]).to_DCM", "Quaternion[S].copy.to_DCM", "Quaternion[S].view.to_DCM"]
+              "Quaternion[S].to_DCM", "neg(Quaternion[S]).to_DCM", "Quaternion[S].copy.to_DCM", "Quaternion[S].view.to_DCM",
+              "Quaternion[rewritten].to_DCM", "DCM(q=)[int-list]"]
 
 
 def rot_route(route, q, v):
@@ -116,7 +145,9 @@ def rot_route(route, q, v):
         return np.asarray(t.product(qq.conjugate), dtype=float)[1:], False
     if route == "Quaternion[S].copy.rotate":
         return np.asarray(QS(q).copy().rotate(v.copy()), dtype=float), False
+    if route == "Quaternion[rewritten].rotate":
+        return np.asarray(rewritten(q).rotate(v.copy()), dtype=float), False
     raise KeyError(route)
 
 
-ROT_ROUTES = ["Quaternion.rotate", "q_rot", "sandwich", "Quaternion[S].copy.rotate"]
+ROT_ROUTES = ["Quaternion.rotate", "q_rot", "sandwich", "Quaternion[S].copy.rotate", "Quaternion[rewritten].rotate"]
